@@ -339,6 +339,10 @@ func (self *BinaryConv) unmarshalMap(ctx context.Context, resp http.ResponseSett
 	mapKeyDesc := fd.Key()
 	// every key kind but string (any integer kind, bool) is printed bare by unmarshalSingular: a JSON member name must be quoted
 	isIntKey := mapKeyDesc.Type() != proto.STRING
+	if mapKeyDesc.Type() == proto.INT64 && self.opts.Int642String {
+		// unmarshalSingular already writes the quotes
+		isIntKey = false
+	}
 	if isIntKey {
 		*out = append(*out, '"')
 	}
